@@ -5,8 +5,8 @@ from common import from_replay, to_replay  # noqa: F401
 
 PID = "C11"
 COQ_MODULE = "Prop_C11"
-THEOREMS = ['C11_closure_panic', 'C11_guard_panic', 'C11_catch_reraises']
-CASE_MODULES = ["Monitors"]
+THEOREMS = ['C11_every_history', 'C11_closure_panic', 'C11_guard_panic', 'C11_catch_reraises']
+CASE_MODULES = ["Pf_Hist", "Monitors"]
 CHECK_WITHOUT_PROOF = True
 TRUSTED = common.TRUSTED_COMMON
 ASSUMPTIONS = common.ASSUME_COMMON
